@@ -109,10 +109,16 @@ func (o *byKeySetOrchestrator) newPipeline(keys []string, onStopped func()) chan
 	inputChannel := make(chan []*base.LogRecord, defs.IntermediateBufferedChannelSize)
 	pipelineLogger := o.logger.WithField(defs.LabelName, workerID)
 	pipelineLogger.Infof("new pipeline tag=%s", outputTag)
+	// label values must be valid UTF-8 or the Prometheus client fails to export any of the metrics
+	labelValues := make([]string, 0, len(keys)+1)
+	labelValues = append(labelValues, "byKeySet")
+	for _, key := range keys {
+		labelValues = append(labelValues, strings.ToValidUTF8(key, "\uFFFD"))
+	}
 	pipelineMetricCreator := o.metricCreator.AddOrGetPrefix(
 		"process_",
 		append([]string{"orchestrator"}, o.metricKeyNames...),
-		append([]string{"byKeySet"}, keys...),
+		labelValues,
 	)
 	o.startPipeline(pipelineLogger, pipelineMetricCreator, inputChannel, workerID, outputTag, onStopped)
 	return inputChannel
